@@ -110,7 +110,7 @@ func scenNet(rng *rand.Rand, tr *sim.Trace, seg int, events int) {
 					nd.h.logOut(of.Out, of.Failed)
 					if dst, ok := byAddr[of.To.String()]; ok && !of.Failed {
 						dst.h.inFromBytes(dst.name, nd.addr, of.B)
-						if !dst.h.conn.Inject(of.B, nd.addr, 20*time.Second) {
+						if !dst.h.conn.Inject(of.B, nd.addr, 60*time.Second) {
 							fail("node %s did not take a datagram", dst.name)
 						}
 					}
@@ -128,7 +128,7 @@ func scenNet(rng *rand.Rand, tr *sim.Trace, seg int, events int) {
 			}
 			time.Sleep(300 * time.Microsecond)
 		}
-		if !sim.WaitQuiet(20 * time.Second) {
+		if !sim.WaitQuiet(60 * time.Second) {
 			fail("network did not become quiet")
 		}
 		for _, nd := range nodes {
